@@ -171,9 +171,9 @@ def random_case(rng, j):
     sc = {"eco": eco, "universe": uni, "manifest": man, "vulns": vulns, "opts": o}
     if eco == "Maven" and rng.random() < 0.3:
         sc["layout"] = rng.choice(["profile-mgmt", "profile-mgmt-active", "profile-props"])
-    if eco == "npm" and rng.random() < 0.25:
-        m = rng.choice(man)
-        man.append({"name": m["name"] + "-legacy", "req": "npm:%s@%s" % (m["name"], m["req"]), "group": rng.choice(["", "", "dev"])})
+    # (no alias re-declarations here: with tag / pre-release requirements the relaxer rewrites one of the two declarations
+    #  of a package depending on Go map order, which makes report, re-analysis and trace differ from run to run - see
+    #  DESIGN.md 0.4; the deterministic overlay() below keeps the alias dimension for the TLC-generated scenarios)
     return {"fam": "Remediation", "cfg": "random", "scenario": sc, "devs": [], "model": None, "id": vf.case_id(sc)}
 
 
